@@ -140,13 +140,12 @@ Theorem C13_kept_partial (cfg : rcfg) (r r1 r' : registry) (sc sc' : scope)
   name <> "" -> name <> "_" -> name <> "mock" -> name <> "callInfo" ->
   populate cfg r (refs t) [] = Ok (r1, imps) ->
   search_import r1 name = None ->
-  has_var (rename_for_imports (sc_vars sc) (map (imp_qualifier r1) imps)) name = false ->
+  has_var (rename_for_imports (sc_vars sc) (var_quals r1 imps)) name = false ->
   str_mem name (sc_conflicted sc) = false ->
   add_var cfg r sc name t "" = Ok (r', sc', idx) ->
   exists v, nth_error (sc_vars sc') idx = Some v /\ v_name v = name /\ v_ty v = t.
 Proof.
   intros N1 N2 N3 N4 HP HS HV HC. unfold add_var. rewrite HP. simpl.
-  destruct (rename_order_sensitive _ && _); [discriminate|].
   assert (E : (name ++ "")%string = name).
   { clear. induction name; simpl; [reflexivity|f_equal; assumption]. }
   rewrite (C13_user_name_verbatim name "" t N1 N2) by (rewrite E; assumption).
